@@ -66,6 +66,11 @@ class Region:
         self.cur = None  # (loop number, iteration) while inside a worksharing loop, None: replicated code
         self.private = set()  # array ids allocated inside the region (thread-private)
         self.loops = []
+        from .interp import _cell_serial
+        self.serial0 = _cell_serial[0] + 1
+        self.shared_writes = []
+        self.reductions = []
+        self.schedule = None
 
 
 class OpsDomain(SymDomain):
@@ -101,6 +106,13 @@ class OpsDomain(SymDomain):
         if arr.id in r.private:
             return
         r.effects.append((arr.id, arr.name, idx, w, site, r.group, r.cur))
+
+    def write(self, cell, v, e, fr):
+        r = self.region
+        if r is not None and self.record and getattr(cell, "serial", 1 << 60) < r.serial0:
+            # a scalar that exists outside the region is written inside it
+            r.shared_writes.append(("%s#%d" % (cell.name, cell.serial), ir.locstr(e), r.group, r.cur))
+        cell.set(v)
 
     def new_array(self, name, n, elem):
         a = SArr(name, n, zero=True) if elem == "double" else SymDomain.new_array(self, name, n, elem)
